@@ -323,7 +323,8 @@ Step ==
                       /\ viol' = viol
                            \cup (IF e.ct # w.ct THEN {V(t, l, "parameter type code differs from the bound type") : t \in tags} ELSE {})
                            \cup (IF ~InnerCmp(e.inner, w.inner) THEN {V(t, l, "parameter value differs from what the client sent") : t \in tags} ELSE {})
-                           \cup (IF ce.judge /\ InnerCmp(e.inner, w.inner) /\ ~ConvCmp(e.conv, ce.c) THEN {V("C08", l, "converted parameter value differs from what the client encoded")} ELSE {})
+                           \cup (IF ce.judge /\ InnerCmp(e.inner, w.inner) /\ ~ConvCmp(e.conv, ce.c) THEN {V("C08", l, IF e.conv.t = "panic" THEN "conversion of a " \o w.inner.t \o " parameter panicked at " \o e.conv.site
+                                                 ELSE "converted " \o w.inner.t \o " parameter differs from what the client encoded")} ELSE {})
        [] e.e = "pv_panic" ->
             /\ m' = [m EXCEPT !.panics = Append(@, e.site)]
             /\ UNCHANGED viol
